@@ -404,8 +404,8 @@ pub fn random_behaviour(r: &mut Rng, t: &mut Trace, steps: usize) {
                     t.run(&mut w, json!({"op": "q_router_rev_fold", "amount": st(rel_amount(r, 1000)), "operations": route_ops(&route)}));
                 }
             }
-            80..=91 => malformed(r, t, &mut w, i),
-            92..=94 => {
+            80..=93 => malformed(r, t, &mut w, i),
+            94..=95 => {
                 // plain transfers and allowance changes between users
                 let info = r.pick(&[a0.clone(), a1.clone(), tok(&w.pairs[i].lp)]).clone();
                 let amount = rel_amount(r, 1_000_000);
@@ -586,12 +586,43 @@ fn malformed(r: &mut Rng, t: &mut Trace, w: &mut World, i: usize) {
             }
         }
         12 => {
-            // routes with a bad shape: empty, two outputs
-            if r.chance(1, 2) {
-                json!({"op": "router_ops", "caller": who, "operations": [], "min": nul(), "to": nul(), "funds": []})
-            } else {
-                let ops = json!([{"offer_info": nat("ua"), "ask_info": a0.clone()}, {"offer_info": nat("ub"), "ask_info": a1.clone()}]);
-                json!({"op": "router_ops", "caller": who, "operations": ops, "min": nul(), "to": nul(), "funds": [["ua", st(amount)]]})
+            // routes with an odd shape: empty, two outputs, hops that do not chain (merging into one output,
+            // a chain given in the wrong order, a chain funded with the wrong coin) - quoted first
+            match r.below(5) {
+                0 => json!({"op": "router_ops", "caller": who, "operations": [], "min": nul(), "to": nul(), "funds": []}),
+                1 => {
+                    let ops = json!([{"offer_info": nat("ua"), "ask_info": a0.clone()}, {"offer_info": nat("ub"), "ask_info": a1.clone()}]);
+                    json!({"op": "router_ops", "caller": who, "operations": ops, "min": nul(), "to": nul(), "funds": [["ua", st(amount)]]})
+                }
+                k => {
+                    let chain = random_route(r, w, 2);
+                    let route: Vec<(Value, Value)> = if k == 2 || chain.len() < 2 {
+                        // two different pairs paying the same asset: [X -> B, Y -> B]
+                        let b = chain[0].1.clone();
+                        let mut other = None;
+                        for j in 0..w.pairs.len() {
+                            let (b0, b1) = pair_infos(w, j);
+                            if b0 == b && b1 != chain[0].0 { other = Some((b1, b0)); }
+                            else if b1 == b && b0 != chain[0].0 { other = Some((b0, b1)); }
+                        }
+                        match other { Some(o) => vec![chain[0].clone(), o], None => chain.clone() }
+                    } else if k == 3 {
+                        vec![chain[1].clone(), chain[0].clone()]
+                    } else {
+                        chain.clone()
+                    };
+                    // funded with the first hop's offer asset (k == 4: with the LAST hop's offer asset instead)
+                    let fund = if k == 4 { route[route.len() - 1].0.clone() } else { route[0].0.clone() };
+                    t.run(w, json!({"op": "q_router_sim", "amount": st(amount), "operations": route_ops(&route)}));
+                    let to = opt_to(r);
+                    if is_native(&fund) {
+                        json!({"op": "router_ops", "caller": who, "operations": route_ops(&route), "min": nul(), "to": to,
+                               "funds": [[id_of(&fund), st(amount)]]})
+                    } else {
+                        json!({"op": "cw20_send", "token": id_of(&fund), "caller": who, "contract": w.router, "amount": st(amount),
+                               "hook": {"kind": "router_ops", "operations": route_ops(&route), "min": nul(), "to": to}})
+                    }
+                }
             }
         }
         _ => {
